@@ -98,6 +98,8 @@ Prop_C04 == [][Act_C04]_vars
 Prop_C06 == [][Act_C06]_vars
 Prop_C10 == [][Act_C10]_vars
 Prop_C13 == [][Act_C13]_vars
+Act_C11 == AllTrue(C11_A(cfg, opts, pc', Prev, st', b'))
+Prop_C11 == [][Act_C11]_vars
 Prop_C14 == [][Act_C14]_vars
 
 \* ---- C09: independence of the visiting order of the internal task sets ---------
